@@ -150,6 +150,22 @@ func judgeAmountRoundTrip(c AmountCase, o *vh.Obs) {
 	}
 }
 
+// escapeAll writes a JSON string with every character as a \uXXXX escape.
+func escapeAll(s string) string {
+	var sb strings.Builder
+	sb.WriteByte('"')
+	for _, r := range s {
+		if r < 0x10000 {
+			fmt.Fprintf(&sb, `\u%04x`, r)
+		} else {
+			r -= 0x10000
+			fmt.Fprintf(&sb, `\u%04x\u%04x`, 0xd800+(r>>10), 0xdc00+(r&0x3ff))
+		}
+	}
+	sb.WriteByte('"')
+	return sb.String()
+}
+
 func absLess(v int64, exp uint32) bool {
 	b := new(big.Int).Abs(big.NewInt(v))
 	return b.Cmp(ratref.Pow10(int(exp))) < 0
@@ -331,6 +347,13 @@ func judgeAmountText(c TextCase, o *vh.Obs) {
 			h = holder{Amount: num.MakeAmount(sentinelV, sentinelE)}
 			err = yaml.Unmarshal([]byte(`amount: `+string(q)+"\n"), &h)
 			results = append(results, result{"yaml(quoted)", h.Amount, err})
+		}
+		// the same JSON string written with \uXXXX escapes is the same value
+		if len(s) > 0 && len(s) < 40 {
+			o.Class("escaped-rendering")
+			h := holder{Amount: num.MakeAmount(sentinelV, sentinelE)}
+			err = json.Unmarshal([]byte(`{"amount":`+escapeAll(s)+`}`), &h)
+			results = append(results, result{"json(escaped)", h.Amount, err})
 		}
 	}
 	if jsonNumberRe.MatchString(s) {
